@@ -7,6 +7,7 @@ import Req.Pool.H2MuxLane
 import Req.Pool.H3Map
 import Req.Driver.L.C09Dump
 import Req.Driver.L.C09Hpack
+import Req.Driver.L.C09Decode
 /-! Driver lanes of C09. -/
 namespace Req.Driver.L.C09
 open Req.Proto
@@ -332,6 +333,7 @@ def laneH3Map : List String → String
   | _ => "bad-op"
 
 def lanes : List (String × (List String → String)) := [
+  ("c09decown", Req.Driver.L.C09Decode.laneDecOwn),
   ("c09dumpq", Req.Driver.L.C09Dump.laneDumpQ),
   ("c09hpack", Req.Driver.L.C09Hpack.laneHpack),
   ("c09h3map", laneH3Map),
